@@ -971,7 +971,9 @@ func (g *gen) fillPackage(pkg *Pkg, file, other *File, n int, isRoot bool) {
 			bd := &Decl{Kind: KGeneric, Name: g.freshName(pkg, "boxName", true), TParams: "T any", Fields: []*Field{{Name: "Val", Type: Basic("T")}, {Name: "Ok", Type: Basic("bool")}}}
 			other.Decls = append(other.Decls, bd)
 			g.types = append(g.types, &tinfo{pkg: pkg, d: bd, cat: "generic", exported: true})
-			box := func(arg *TypeRef) *TypeRef { return &TypeRef{K: TRef, Pkg: pkg.Path, Name: bd.Name, Args: []*TypeRef{arg}} }
+			box := func(arg *TypeRef) *TypeRef {
+				return &TypeRef{K: TRef, Pkg: pkg.Path, Name: bd.Name, Args: []*TypeRef{arg}}
+			}
 			in := insts[0]
 			d.Fields = append(d.Fields, &Field{Name: "Nested1", Type: box(&TypeRef{K: TRef, Pkg: pkg.Path, Name: in.d.Name, Args: []*TypeRef{in.arg}})})
 			if !g.o.gated("generic_basic_type_arg") {
